@@ -96,6 +96,14 @@ pub struct SyncNotSendCopy {
 }
 unsafe impl Sync for SyncNotSendCopy {}
 
+/// Zero-size and neither `Send` nor `Sync` (like `PhantomData<Rc<()>>`).
+#[derive(Clone, Copy)]
+pub struct ZstNotSendSync(PhantomData<*mut ()>);
+
+/// Zero-size, `Send` but not `Sync` (like `PhantomData<Cell<u8>>`).
+#[derive(Clone, Copy)]
+pub struct ZstNotSync(PhantomData<std::cell::Cell<u8>>);
+
 /// Control: `Send + Sync`.
 #[derive(Clone)]
 pub struct ArcCounter(pub std::sync::Arc<std::sync::atomic::AtomicUsize>);
